@@ -369,6 +369,12 @@ func FuzzExpr(f *testing.F) {
 		f.Add(e)
 	}
 	f.Fuzz(func(t *testing.T, expr string) {
+		if len(expr) > 512 {
+			// parsing time grows quadratically with nesting depth (3000 nested
+			// parentheses take 12 s): longer strings only slow the campaign down,
+			// and the fuzzing engine kills a worker whose input runs for 10 s
+			return
+		}
 		c := &c15Case{Kind: "expr", Expr: expr, NS: map[string]string{"p": "urn:x"}, Vars: []varBinding{{Local: "n0", T: "num", Num: "-0.5"}, {Local: "v", T: "nodes"}}}
 		if err := checkC15(c); err != nil {
 			fuzzFail(t, "FuzzExpr", c, err)
@@ -408,7 +414,7 @@ func FuzzPair(f *testing.F) {
 	f.Add("count(//@*) div 0", "<a b='1'/>")
 	f.Add("//*[position() = last()]/..", "<a><b/><c/></a>")
 	f.Fuzz(func(t *testing.T, expr, doc string) {
-		if len(doc) > 1<<14 || len(expr) > 1<<10 {
+		if len(doc) > 1<<14 || len(expr) > 512 {
 			return
 		}
 		c := &c15Case{Kind: "expr", Expr: expr, Doc: []byte(doc)}
